@@ -5,6 +5,9 @@ import Lattigo.Model.MPShare
   C14 line protocol.  `v` vector, `iv` signed vector, `M` matrix (rows joined by `;`), `IM` matrix of
   signed rows.  A ring is `<qs:v> <ps:v> <n>`; a polynomial over it is the matrix of its canonical
   rows q_0…q_L,p_0…p_K; several polynomials are concatenated row-wise.
+  Conjugate-invariant ring Z[X+X⁻¹]/(X^2N+1): the harness writes every element UNFOLDED in the standard
+  ring of degree 2N (`c_i = a_i`, `c_{2N−i} = −a_i`, `c_N = 0`; `n = 2N` on the line), a subring in which
+  products are negacyclic and `X ↦ X^g` acts modulo NthRoot = 4N = 2n — the same model applies unchanged.
   `G` (gadget share / key) = `<levelQ> <levelP> <base2> <shape:v> <deg+1> <rows:M>` (polys in order i,j,k).
   `T` (aggregation tree) = postfix, comma separated: `0,1,+,2,+`.
 
